@@ -106,8 +106,9 @@ pub const FIELD_NAMES: [&str; 16] = [
     "f15",
 ];
 pub const MAX_FAN: usize = 8;
-/// most zero-width elements the harness's own visitor accepts in one sequence
-pub const ZST_CAP: usize = 50_000;
+/// most zero-width elements the harness's own visitor accepts in ONE top-level decode (all
+/// sequences together: nested sequences of zero-width elements multiply otherwise)
+pub const ZST_CAP: usize = 4_000;
 const TYPE_NAME: &str = "T";
 const VARIANT_NAME: &str = "V";
 const VARIANT_NAMES: [&str; 1] = ["V"];
@@ -546,7 +547,9 @@ pub fn gen_val(rng: &mut Rng, shape: &Shape, budget: &mut isize) -> Val {
                 let before = *budget;
                 v.push(gen_val(rng, s, budget));
                 if *budget == before {
-                    *budget -= 0; // ZST element
+                    // zero-width element: charge it anyway, so that one value never holds more
+                    // zero-width elements than its size budget (the decode-side cap relies on it)
+                    *budget -= 1;
                     if v.len() >= 40 {
                         break;
                     }
@@ -565,8 +568,12 @@ pub fn gen_val(rng: &mut Rng, shape: &Shape, budget: &mut isize) -> Val {
                 if *budget <= 0 && m.len() >= 2 {
                     break;
                 }
+                let before = *budget;
                 let kk = gen_val(rng, k, budget);
                 let vv = gen_val(rng, v, budget);
+                if *budget == before {
+                    *budget -= 1;
+                }
                 m.push((kk, vv));
             }
             Val::Map(m)
@@ -865,6 +872,7 @@ thread_local! {
     static BORROWS: RefCell<Vec<Borrow>> = const { RefCell::new(Vec::new()) };
     static RECORD: Cell<bool> = const { Cell::new(false) };
     static TRANSIENT: Cell<u32> = const { Cell::new(0) };
+    static ZST_SEEN: Cell<usize> = const { Cell::new(0) };
 }
 
 /// Run `f` with `shape` as the target type of `DynOwned` / `DynRef`.
@@ -906,6 +914,7 @@ pub struct DynOwned(pub Val);
 impl<'de> Deserialize<'de> for DynOwned {
     fn deserialize<D: Deserializer<'de>>(d: D) -> Result<Self, D::Error> {
         RECORD.with(|r| r.set(false));
+        ZST_SEEN.with(|c| c.set(0));
         Seed(cur_shape()).deserialize(d).map(DynOwned)
     }
 }
@@ -917,6 +926,7 @@ pub struct DynRef<'de>(pub Val, pub PhantomData<&'de [u8]>);
 impl<'de> Deserialize<'de> for DynRef<'de> {
     fn deserialize<D: Deserializer<'de>>(d: D) -> Result<Self, D::Error> {
         RECORD.with(|r| r.set(true));
+        ZST_SEEN.with(|c| c.set(0));
         let r = Seed(cur_shape()).deserialize(d).map(|v| DynRef(v, PhantomData));
         RECORD.with(|r| r.set(false));
         r
@@ -1120,9 +1130,16 @@ impl<'de> Visitor<'de> for V<'_> {
                 let mut out = Vec::with_capacity(cap);
                 while let Some(v) = seq.next_element_seed(Seed(s))? {
                     out.push(v);
-                    if out.len() > ZST_CAP && s.zero_width() {
-                        // harness guard: our Val::Unit is not zero-sized like `()` is
-                        return Err(de::Error::custom("harness cap on zero-width elements"));
+                    if s.zero_width() {
+                        // harness guard: our Val::Unit is not zero-sized like `()` is, and a
+                        // garbage length prefix says how long this loops
+                        let n = ZST_SEEN.with(|c| {
+                            c.set(c.get() + 1);
+                            c.get()
+                        });
+                        if n > ZST_CAP {
+                            return Err(de::Error::custom("harness cap on zero-width elements"));
+                        }
                     }
                 }
                 Ok(Val::Seq(out))
@@ -1141,8 +1158,14 @@ impl<'de> Visitor<'de> for V<'_> {
                 while let Some(kk) = map.next_key_seed(Seed(k))? {
                     let vv = map.next_value_seed(Seed(v))?;
                     out.push((kk, vv));
-                    if out.len() > ZST_CAP && k.zero_width() && v.zero_width() {
-                        return Err(de::Error::custom("harness cap on zero-width elements"));
+                    if k.zero_width() && v.zero_width() {
+                        let n = ZST_SEEN.with(|c| {
+                            c.set(c.get() + 1);
+                            c.get()
+                        });
+                        if n > ZST_CAP {
+                            return Err(de::Error::custom("harness cap on zero-width elements"));
+                        }
                     }
                 }
                 Ok(Val::Map(out))
